@@ -32,6 +32,13 @@ def gen(c, max_ops=8):
             stmts.append(["zero_mid", a, c.perm(3), c.bool()])
             shapes.append(shapes[a])
             continue
+        if k == 11 and c.chance(1, 3):
+            # a value used as the (non-differentiable) CONDITION of where - as a whole or through a smaller slice of it that is broadcast
+            # against the result - and, on another path, as an ordinary operand: the condition's zero contribution meets the real one
+            a = pick()
+            stmts.append(["wherec", a, c.int(0, 2), c.bool()])
+            shapes.append(shapes[a])
+            continue
         if k == 12 and c.chance(1, 3):
             # three uses of one value whose contributions arrive in a drawn order: through a function, through an index expression that selects
             # EVERY entry (a sparse contribution covering the whole value), and passed through unchanged; sums share cotangent objects
@@ -184,6 +191,12 @@ def run(prog, x, ns, raw=False):
             d = a + b
             c_ = b[st[2]]
             r = (c_ + d) if st[3] else (d + c_)
+        elif t == "wherec":
+            a = vals[st[1]]
+            nd_ = len(onp.shape(a) if not hasattr(a, "shape") else a.shape)
+            cond = a if (st[2] == 0 or nd_ == 0) else (a[0] if st[2] == 1 else a[..., :1])  # every entry is non-zero: the first branch is taken
+            sel = ns.where(cond, a * 1.5, a * a)
+            r = (sel + cond) if st[3] else (cond * 0.5 + sel)
         elif t == "widx":
             a = vals[st[1]]
             nd_ = len(onp.shape(a) if not hasattr(a, "shape") else a.shape)
